@@ -68,6 +68,42 @@ def _mates_check(f, start, off, seq1, q1s, seq2, q2s, dove, swapped):
     return len(got) == len([1 for pos in range(lo, hi) if (start <= pos < start + 4) or (start + off <= pos < start + off + 4)])
 
 
+def _l2b_dovetail(n1: int, s2: int, n2: int, r1rev: bool, dove: bool, b: int, q: int) -> bool:
+    """
+    pre: 1 <= n1 <= 6 and 1 <= n2 <= 6
+    pre: -3 <= s2 <= 3
+    pre: 0 <= b <= 4
+    pre: 0 <= q <= 60
+    post: _
+    """
+    # forward mate covers [100, 100+nf), reverse mate covers [100+s2, 100+s2+nr): any relative placement incl. dove tails on either side
+    R = list(range(-3, 7))
+    n1, s2, n2 = pick(R, n1 + 3), pick(R, s2 + 3), pick(R, n2 + 3)
+    fwd_seq = (pick(B, b) + 'ACGTAC')[:n1]
+    rev_seq = 'TGCATG'[:n2]
+    fq = [q] + [30] * (n1 - 1)
+    rq = [31] * n2
+    if not r1rev:
+        f = S.paired_fragment(FakeRead, 100, fwd_seq, fq, 100 + s2, rev_seq, rq, r1_rev=False)
+    else:
+        f = S.paired_fragment(FakeRead, 100 + s2, rev_seq, rq, 100, fwd_seq, fq, r1_rev=True)
+    got = f.get_consensus(dove_safe=dove)
+    lo, hi = 100, 100 + s2 + n2 - 1        # safe span (inclusive): forward mate's start .. reverse mate's last base
+    want = {}
+    for pos in range(min(100, 100 + s2), max(100 + n1, 100 + s2 + n2)):
+        calls = []
+        if 100 <= pos < 100 + n1:
+            calls.append((fwd_seq[pos - 100], fq[pos - 100]))
+        if 100 + s2 <= pos < 100 + s2 + n2:
+            calls.append((rev_seq[pos - 100 - s2], rq[pos - 100 - s2]))
+        if not calls:
+            continue
+        if dove and not (lo <= pos <= hi):
+            continue
+        want[('chr1', pos)] = S.best_call(calls)
+    return {k: tuple(v) for k, v in got.items()} == want
+
+
 def _l3_majority(k: int, a0: int, a1: int, a2: int, a3: int, c0: int, c1: int, c2: int, c3: int) -> bool:
     """
     pre: 1 <= k <= 4
@@ -109,6 +145,9 @@ LEMMAS = [
          cases={'quick': [dict(id='n%d' % n, pre=['n == %d' % n]) for n in (0, 1, 2)] + [dict(id='n3_b%d' % b, pre=['n == 3', 'b0 == %d' % b]) for b in range(5)]}),
     dict(name='L2_mate_overlap', fn='_l2_mates', engine='E1', timeout=_T, replay='replay.C13:replay',
          cases={'quick': [dict(id='off%d_%s' % (o, 'rev' if r else 'fwd'), pre=['off == %d' % o, 'r1rev == %s' % bool(r)]) for o in range(5) for r in (0, 1)]}),
+    dict(name='L2b_dovetail_window', fn='_l2b_dovetail', engine='E1', timeout=_T, replay='replay.C13:replay',
+         cases={'quick': [dict(id='%s_%s' % ('rev' if r else 'fwd', 'dove' if d else 'all'), pre=['r1rev == %s' % bool(r), 'dove == %s' % bool(d), 'b <= 1', 'q == 30 or q == 31 or q == 32', 'n1 <= 4', 'n2 <= 4', '-2 <= s2 <= 2']) for r in (0, 1) for d in (0, 1)],
+                'thorough': [dict(id='%s_%s_n%d' % ('rev' if r else 'fwd', 'dove' if d else 'all', n), pre=['r1rev == %s' % bool(r), 'dove == %s' % bool(d), 'n1 == %d' % n, 'q == 30 or q == 31 or q == 32']) for r in (0, 1) for d in (0, 1) for n in range(1, 7)]}),
     dict(name='L3_majority', fn='_l3_majority', engine='E1', timeout=_T, replay='replay.C13:replay',
          cases={'quick': [dict(id='k%d' % k, pre=['k == %d' % k] + ['a%d == 0' % i for i in range(k, 4)] + ['c%d == 0' % i for i in range(4)]) for k in (1, 2, 3)] +
                          [dict(id='k4_a%d' % a, pre=['k == 4', 'a0 == %d' % a] + ['c%d == 0' % i for i in range(4)]) for a in range(5)] +
@@ -119,7 +158,7 @@ LEMMAS = [
 
 PROPERTY = dict(
     functions=['sequtils.pick_best_base_call', 'sequtils.get_consensus_dictionaries / read_to_consensus_dict', 'fragment.Fragment.get_consensus', 'molecule.Molecule.get_consensus'],
-    bounds=dict(pick_best='<=3 calls, bases over ACGTN, UNBOUNDED non-negative qualities, missing calls', mates='one pair overlapping by 0..4 bases, the overlapping base of each mate over ACGTN with quality 0..60, both orientations, dove_safe on/off',
+    bounds=dict(pick_best='<=3 calls, bases over ACGTN, UNBOUNDED non-negative qualities, missing calls', mates='one pair overlapping by 0..4 bases, the overlapping base of each mate over ACGTN with quality 0..60, both orientations, dove_safe on/off; every placement of a forward mate of length 1..6 against a reverse mate of length 1..6 starting -3..+3 (dove tails on both sides)',
                 majority='1..4 single-read fragments x 1 position over ACGTN (all 5^4 columns), 3 fragments x 2 positions', order='all 6 insertion orders of 3 fragments, each fragment duplicated, partial overlap'),
     outside=['molecules of more than 4 fragments (the vote is per position and count-based: argument only)', 'indels', 'only_include_refbase / cycle skipping options'],
     assumptions=['bases are selected by symbolic indices into ACGTN (numpy sees concrete counts on each path)', 'FakeRead.get_aligned_pairs(with_seq) models pysam for M-only CIGARs'],
